@@ -3,6 +3,7 @@ package rules
 
 import (
 	"fmt"
+	"go/types"
 	"regexp"
 	"sort"
 	"strings"
@@ -73,16 +74,30 @@ var trustedBase = []string{
 // TrustedBase is stated in every evidence file.
 func TrustedBase() []string { return trustedBase }
 
-var regRe = regexp.MustCompile(`%t[0-9]+`)
+var regRe = regexp.MustCompile(`(%|&?local:)t[0-9]+`)
 
 // stable rewrites SSA register names inside an access path into position-free descriptions of the producing
 // instruction, so that obligation keys survive unrelated edits of the function.
 func (c *Ctx) stable(fn *ssa.Function, path string) string {
-	if !strings.Contains(path, "%t") {
+	if !strings.Contains(path, "%t") && !strings.Contains(path, "local:t") {
 		return path
 	}
 	return regRe.ReplaceAllStringFunc(path, func(reg string) string {
-		name := reg[1:]
+		name := reg[strings.LastIndex(reg, "t"):]
+		if strings.Contains(reg, "local:") {
+			for _, b := range fn.Blocks {
+				for _, in := range b.Instrs {
+					if al, ok := in.(*ssa.Alloc); ok && al.Name() == name {
+						d := al.Comment
+						if d == "" || d == "complit" || d == "varargs" {
+							d = typeStr(al.Type().Underlying().(*types.Pointer).Elem())
+						}
+						return "<local " + d + ">"
+					}
+				}
+			}
+			return "<local>"
+		}
 		for _, b := range fn.Blocks {
 			for _, in := range b.Instrs {
 				if v, ok := in.(ssa.Value); ok && v.Name() == name {
